@@ -15,6 +15,12 @@ CLAIMS = {
  "C04": dict(cat="proof", tech="machine-checked proof in Coq (verified simplification validator, trace validity theorem) + model/implementation correspondence",
    text="Kernel-checked: (1) a child tape accepted by SimplifyValidate.check_simplify writes the parent's outputs at every input where the trace is valid (any value type/semantics with CopyReg = id); (2) a trace recorded by an evaluator with an honest choice function is valid at its input; (3) both composed for f32 point traces. The validators run on every parent/trace/child triple and every SSA/register pair the implementation produces (interpreter at 15 budget pairs, x86_64 JIT, point and interval traces, two-level chains). VmData::simplify is modelled and tied op-for-op.",
    ref="DESIGN.md §5 C04"),
+ "C20": dict(cat="proof", tech="machine-checked proof in Coq (trace/shape theorems generic in value type) + model/implementation correspondence of all four tracing evaluators",
+   text="Kernel-checked for every value type and semantics: one trace entry per choice clause, each entry is the choice function of the operand values at that clause, no trace iff all clauses undecided, exactly the requested number of outputs. The traces of the interpreter point/interval evaluators equal the model's on generated DAGs with up to 220+ clauses; JIT point traces must equal the interpreter's and JIT interval entries must be the model's or Both; output shapes for slice lengths 0..33 and function/tape metadata are checked by the oracle.",
+   ref="DESIGN.md §5 C20"),
+ "C10": dict(cat="proof", tech="machine-checked proof in Coq (reset = new, stale-content independence) + differential histories against fresh objects",
+   text="Kernel-checked: RegisterAllocator::reset and VmWorkspace::reset yield exactly the freshly constructed state from any prior state; evaluation results are independent of stale output-vector contents when every output index is written, and a validated register tape evaluated with arbitrary stale slots equals its SSA tape evaluated fresh (all value types / semantics). Random histories over long-lived evaluators, recycled function storage, recycled tape storage (JIT Mmap) and a reused workspace are compared step by step with fresh-object twins on interpreter (N=4, 255) and JIT.",
+   ref="DESIGN.md §5 C10", note="Executable-page reuse inside Mmap is exercised by the histories but not modelled."),
 }
 
 def main():
